@@ -158,6 +158,8 @@ type PrintOpt struct {
 	TrailingComma bool
 	// Pad is written before the first token (leading white space)
 	Pad string
+	// Trail is written after the last token (trailing white space)
+	Trail string `json:"trail,omitempty"`
 	// Blank replaces the single blank written around operators and after commas / colons
 	// ("" = " "): a tab, a carriage return, several blanks
 	Blank string `json:"blank,omitempty"`
@@ -344,6 +346,7 @@ func Print(e *Expr, o PrintOpt) string {
 	p := &printer{o: o}
 	p.emit(o.Pad)
 	p.print(e)
+	p.emit(o.Trail)
 	return string(p.b)
 }
 
